@@ -37,6 +37,76 @@ Proof.
     split; vm_compute; reflexivity.
 Qed.
 
+(* the number of machine steps of one activation of a method, from the call DAG
+   (fuel = depth + 1 suffices); equals ImageSem.count_method for the non-FIXER variants *)
+Fixpoint steps_method (ms : list method) (fuel : nat) (id : nat) : nat :=
+  match fuel with
+  | O => O
+  | S k =>
+      match nth_error ms id with
+      | None => O
+      | Some m => (List.length (m_instrs m) + fold_right (fun cal a => (steps_method ms k cal + a)%nat) O (m_callees m))%nat
+      end
+  end.
+
+Lemma steps_method_count c ms : non_fixer (c_variant c) ->
+  Forall (fun m => zlen (m_instrs m) = m_total m) ms ->
+  forall f id, Z.of_nat (steps_method ms f id) = count_method c ms f id.
+Proof.
+  intros Hnf Hl. induction f as [|f IH]; intros id; cbn [steps_method count_method]; [reflexivity|].
+  destruct (nth_error ms id) as [m|] eqn:E; [|reflexivity].
+  rewrite Forall_forall in Hl. specialize (Hl m (nth_error_In _ _ E)). unfold zlen in Hl.
+  rewrite Nat2Z.inj_add, Hl.
+  assert (Hs : fixer_skip c = 0) by (unfold fixer_skip; unfold non_fixer in Hnf; destruct (c_variant c); try reflexivity; destruct Hnf as [X|[X|[X|X]]]; discriminate).
+  rewrite Hs.
+  assert (Hsum : Z.of_nat (fold_right (fun cal a => (steps_method ms f cal + a)%nat) O (m_callees m)) =
+                 fold_right (fun cal a => count_method c ms f cal + a) 0 (m_callees m)).
+  { induction (m_callees m) as [|x tl IHl]; cbn [fold_right]; [reflexivity|]. rewrite Nat2Z.inj_add, IH, IHl. reflexivity. }
+  rewrite Hsum. lia.
+Qed.
+
+Lemma Forall2_combine_In {A B} (R : A -> B -> Prop) la lb a b : Forall2 R la lb -> In (a, b) (combine la lb) -> R a b.
+Proof.
+  intros F. induction F as [|x y la' lb' Hxy _ IH]; intros Hin; [destruct Hin|].
+  cbn [combine] in Hin. destruct Hin as [E|Hin]; [inversion E; subst; exact Hxy|exact (IH Hin)].
+Qed.
+
+Lemma map_fst_combine {A B} (la : list A) (lb : list B) : List.length la = List.length lb -> map fst (combine la lb) = la.
+Proof.
+  revert lb. induction la as [|a la IH]; intros [|b lb] H; cbn in *; try reflexivity; try discriminate.
+  rewrite IH by lia. reflexivity.
+Qed.
+
+Lemma map_snd_combine {A B} (la : list A) (lb : list B) : List.length la = List.length lb -> map snd (combine la lb) = lb.
+Proof.
+  revert lb. induction la as [|a la IH]; intros [|b lb] H; cbn in *; try reflexivity; try discriminate.
+  rewrite IH by lia. reflexivity.
+Qed.
+
+Lemma slots_NoDup cs idx : 0 < cs -> ForallOrdPairs (fun i j => i + cs <= j \/ j + cs <= i) idx -> NoDup idx.
+Proof.
+  intros Hcs H. induction H as [|x l Hx _ IH]; constructor; [|exact IH].
+  intros Hin. rewrite Forall_forall in Hx. specialize (Hx x Hin). lia.
+Qed.
+
+Lemma NoDup_map_sub3 idx : NoDup idx -> (forall i, In i idx -> 3 <= i) -> NoDup (map (fun i => (Z.to_nat i - 3)%nat) idx).
+Proof.
+  intros Hnd. induction Hnd as [|x l Hni _ IH]; intros Hr; cbn [map]; constructor.
+  - intros Hin. apply in_map_iff in Hin. destruct Hin as (y & Ey & Hy).
+    pose proof (Hr x (or_introl eq_refl)). pose proof (Hr y (or_intror Hy)).
+    assert (x = y) by lia. subst y. contradiction.
+  - apply IH. intros i Hi. apply Hr. right. exact Hi.
+Qed.
+
+Lemma sum_sites {A} (h : A * nat -> nat) (g : nat -> nat) (l : list (A * nat)) :
+  fold_right (fun x a => (snd x + a)%nat) O (map (fun x => (h x, (2 + g (snd x))%nat)) l) =
+  (2 * List.length l + fold_right (fun cal a => (g cal + a)%nat) O (map snd l))%nat.
+Proof. induction l as [|x tl IH]; cbn [map fold_right snd List.length]; [reflexivity|]. rewrite IH. lia. Qed.
+
+Lemma sum_ones {A} (h : A -> nat) (l : list A) :
+  fold_right (fun x a => (snd x + a)%nat) O (map (fun x => (h x, 1%nat)) l) = List.length l.
+Proof. induction l as [|x tl IH]; cbn [map fold_right snd List.length]; [reflexivity|]. rewrite IH. reflexivity. Qed.
+
 Section MC.
 Variable c : config.
 Variable script : list draw.
@@ -96,12 +166,12 @@ Proof.
   rewrite map_length. unfold zlen in Hhi. exact Hhi.
 Qed.
 
-Definition contract (need : Z) (m : method) : Prop :=
+Definition contract (need : Z) (cnt : nat) (m : method) : Prop :=
   forall s, code_loaded s -> pc s = m_addr m -> env_ok v L dr s ->
     let S := rget s 2 in
     S mod 8 = 0 -> need <= S < W64 -> stk_lo L <= S - need -> S <= stk_hi L ->
     0 <= rget s 8 < W64 -> 0 <= rget s 1 < W64 ->
-    exists s' n, run v L n s = (Next s', n) /\ pc s' = (u64 (rget s 1 + 0) / 2) * 2 /\
+    exists s', run v L cnt s = (Next s', cnt) /\ pc s' = (u64 (rget s 1 + 0) / 2) * 2 /\
       (forall r, 0 <= r -> wr c r = false -> rget s' r = rget s r) /\
       mem_frame s s' (S - need) S /\ dom s' = dom s /\ cfi s' = cfi s /\ env_ok v L dr s'.
 
@@ -132,7 +202,7 @@ Lemma frame_call m : m_is_leaf m = false -> frame_of c m = 32.
 Proof. intros H. unfold frame_of. rewrite H. destruct Hplain as [E|E]; rewrite E; reflexivity. Qed.
 
 (* ---- leaf methods ---- *)
-Lemma leaf_case m : In m ms -> m_depth m = 0 -> m_calls m = 0 -> contract 24 m.
+Lemma leaf_case m : In m ms -> m_depth m = 0 -> m_calls m = 0 -> contract 24 (List.length (m_instrs m)) m.
 Proof.
   intros Hm Hd Hcalls s Hcode Hpc He S HSal HSr HSlo HShi Hs0 Hra.
   pose proof (leaf_methods_run c script img Hsucc (plain_non_fixer c Hplain)) as HL.
@@ -143,7 +213,7 @@ Proof.
   destruct HL as (s' & Rn & Pc & Rg & M & D & C & He'); try assumption;
     try (apply (pd_regions HP)); try (apply (pd_data HP)); try (apply (pd_stack HP));
     try (unfold zlen in *; pose proof (pd_code64 HP); lia); try (apply plain_side; exact Hplain); try lia.
-  exists s', (List.length (m_instrs m)). split; [exact Rn|]. split; [exact Pc|]. split; [exact Rg|].
+  exists s'. split; [exact Rn|]. split; [exact Pc|]. split; [exact Rg|].
   split; [|auto]. intros a Ha Hdta Hr. apply M; try assumption. fold S. lia.
 Qed.
 
@@ -180,14 +250,15 @@ Variable id : nat.
 Variable m : method.
 Hypothesis Hid : nth_error ms id = Some m.
 Hypothesis Hnl : m_is_leaf m = false.
-Hypothesis IHc : forall cal cm, In cal (m_callees m) -> nth_error ms cal = Some cm -> contract (need_method c ms f cal) cm.
+Hypothesis IHc : forall cal cm, In cal (m_callees m) -> nth_error ms cal = Some cm ->
+  contract (need_method c ms f cal) (steps_method ms f cal) cm.
 
 Let N := need_method c ms (S f) id.
 
 Lemma N_eq : N = 32 + fold_right (fun cal a => Z.max (need_method c ms f cal) a) 0 (m_callees m).
 Proof. unfold N. cbn [need_method]. rewrite Hid, (frame_call m Hnl). reflexivity. Qed.
 
-Lemma call_case : contract N m.
+Lemma call_case : contract N (steps_method ms (S f) id) m.
 Proof.
   intros s Hcode Hpc He S HSal HSr HSlo HShi Hs0 Hra.
   assert (Hm : In m ms) by (eapply nth_error_In; exact Hid).
@@ -256,6 +327,11 @@ Proof.
   (* ---------- the body walk ---------- *)
   set (addr := fun j : nat => A + 4 * (3 + Z.of_nat j)).
   set (sites := map (fun i => (Z.to_nat i - 3)%nat) idx).
+  set (sc := map (fun x : Z * nat => ((Z.to_nat (fst x) - 3)%nat, (2 + steps_method ms f (snd x))%nat)) (combine idx (m_callees m))).
+  assert (Hlenic : List.length idx = List.length (m_callees m)) by (apply (Forall2_len' _ _ _ Hsites)).
+  assert (Esites : map fst sc = sites).
+  { unfold sc, sites. rewrite map_map. cbn [fst].
+    rewrite <- (map_fst_combine idx (m_callees m) Hlenic) at 2. rewrite map_map. reflexivity. }
   assert (Hidx : forall i, In i idx -> 3 <= i /\ i + 3 <= 3 + Z.of_nat nb).
   { intros i Hi. destruct (Forall2_In_l _ _ _ i Hsites Hi) as (cal & _ & (cm & stub & _ & _ & _ & B1 & B2)).
     rewrite Epro, Ecs in *. unfold nb. lia. }
@@ -268,6 +344,9 @@ Proof.
     destruct (ForallOrdPairs_In Hdis zi zj Hzi Hzj) as [E|[H|H]]; [lia|lia|lia]. }
   assert (Hfit : forall i, In i sites -> (i + 2 <= nb)%nat).
   { intros i Hi. destruct (Hsite_in i Hi) as (zi & Hzi & Ei'). specialize (Hidx zi Hzi). lia. }
+  assert (Hnd : NoDup sites).
+  { unfold sites. apply NoDup_map_sub3; [|intros i Hi; apply (Hidx i Hi)].
+    unfold disjoint_slots in Hdis. rewrite Ecs in Hdis. apply (slots_NoDup 3); [lia|exact Hdis]. }
   assert (Hplain_step : forall j s', (j < nb)%nat -> is_site sites j = false -> second sites j = false ->
             Inv s' -> pc s' = addr j ->
             exists s1, run v L 1 s' = (Next s1, 1%nat) /\ pc s1 = addr (j + 1)%nat /\ Inv s1).
@@ -318,11 +397,16 @@ Proof.
       split; [rewrite (load_bytes_ext 8 (mem s1) (mem s')); [exact I5|]; intros b Hb; apply Mf; lia|].
       split; [rewrite (load_bytes_ext 8 (mem s1) (mem s')); [exact I6|]; intros b Hb; apply Mf; lia|].
       split; [eapply mem_frame_trans; [exact I7|exact Mf'|lia|lia]|]. split; congruence. }
-  assert (Hsite_step : forall j s', In j sites -> Inv s' -> pc s' = addr j ->
-            exists s1 n, run v L n s' = (Next s1, n) /\ pc s1 = addr (j + 2)%nat /\ Inv s1).
-  { intros j s' Hj (I1 & I2' & I3 & I4 & I5 & I6 & I7 & I8 & I9) Hpcj.
-    destruct (Hsite_in j Hj) as (i & Hi & Eji). pose proof (Hidx i Hi) as Hib.
-    destruct (Forall2_In_l _ _ _ i Hsites Hi) as (cal & Hcal & Hso).
+  assert (Hsite_step : forall j k s', In (j, k) sc -> Inv s' -> pc s' = addr j ->
+            exists s1, run v L k s' = (Next s1, k) /\ pc s1 = addr (j + 2)%nat /\ Inv s1).
+  { intros j k s' Hjk (I1 & I2' & I3 & I4 & I5 & I6 & I7 & I8 & I9) Hpcj.
+    unfold sc in Hjk. apply in_map_iff in Hjk. destruct Hjk as ([i cal] & Ejk & Hic). cbn [fst snd] in Ejk.
+    inversion Ejk as [[Ej Ek]]. clear Ejk.
+    assert (Hi : In i idx) by (eapply in_combine_l; exact Hic).
+    assert (Hcal : In cal (m_callees m)) by (eapply in_combine_r; exact Hic).
+    pose proof (Forall2_combine_In _ _ _ _ _ Hsites Hic) as Hso.
+    pose proof (Hidx i Hi) as Hib.
+    assert (Eji : Z.of_nat j = i - 3) by lia.
     (* the call edge *)
     pose proof (call_sites_run c script img (conj Hc Hr) (plain_non_fixer c Hplain)) as HE.
     rewrite Forall_forall in HE. destruct (HE m Hm i cal Hso) as (cm & Hcm' & Hedge). fold ms in Hcm'.
@@ -355,7 +439,7 @@ Proof.
     assert (I1s : code_loaded s1).
     { apply (code_loaded_same s' s1); [|exact I1]. intros a _. rewrite M1. reflexivity. }
     assert (Hsp1 : rget s1 2 = S - 32) by (rewrite Rg1 by lia; exact I3).
-    destruct (Hcon s1 I1s Pc1) as (s3 & n & R3 & Pc3 & Rg3 & Mf3 & D3 & C3 & He3).
+    destruct (Hcon s1 I1s Pc1) as (s3 & R3 & Pc3 & Rg3 & Mf3 & D3 & C3 & He3).
     { destruct I2' as [X1 X2]. constructor; [rewrite Rg1 by lia; exact X1|rewrite D1'; exact X2]. }
     { rewrite Hsp1. Z.div_mod_to_equations; lia. }
     { rewrite Hsp1. lia. }
@@ -363,8 +447,9 @@ Proof.
     { rewrite Hsp1. lia. }
     { rewrite Rg1 by lia. rewrite I4 by (lia || assumption). exact Hs0. }
     { rewrite Ra1. unfold addr. lia. }
-    exists s3, (2 + n)%nat. split; [|split].
-    - rewrite (run_app v L 2 n s' s1 R1). rewrite R3. reflexivity.
+    exists s3. split; [|split].
+    - change (run v L (2 + steps_method ms f cal) s' = (Next s3, (2 + steps_method ms f cal)%nat)).
+      rewrite (run_app v L 2 (steps_method ms f cal) s' s1 R1). rewrite R3. reflexivity.
     - rewrite Pc3, Ra1. rewrite Z.add_0_r. rewrite u64_small by (unfold addr; lia).
       unfold addr. rewrite Nat2Z.inj_add. Z.div_mod_to_equations; lia.
     - rewrite Hsp1 in Mf3. unfold Inv.
@@ -380,9 +465,10 @@ Proof.
       { rewrite (load_bytes_ext 8 (mem s3) (mem s')); [exact I6|]. intros b Hb. rewrite Mf3 by lia. rewrite M1. reflexivity. }
       split; [eapply mem_frame_trans; [exact I7|exact Mf'|lia|lia]|]. split; congruence. }
   (* walk the body *)
-  destruct (walk_ex v L Inv addr sites nb Hapart Hfit Hplain_step Hsite_step nb O s2) as (s4 & n & R4 & P4 & I4').
+  rewrite <- Esites in Hnd, Hapart, Hfit, Hplain_step.
+  destruct (walk_cnt v L Inv addr sc nb Hnd Hapart Hfit Hplain_step Hsite_step nb O s2) as (s4 & n & R4 & P4 & I4' & Hn).
   { lia. }
-  { unfold second. destruct (existsb _ sites) eqn:Ex; [|reflexivity].
+  { unfold second. destruct (existsb _ (map fst sc)) eqn:Ex; [|reflexivity].
     apply existsb_exists in Ex. destruct Ex as (x & _ & Ex). apply Nat.eqb_eq in Ex. lia. }
   { exact I2. }
   { rewrite P2. unfold addr. lia. }
@@ -406,7 +492,17 @@ Proof.
     - unfold addr. rewrite map_length, Lepi. lia.
     - unfold addr. rewrite map_length, Lepi. destruct Hh; [left; lia|right; lia].
     - apply plain_side. exact Hplain. }
-  exists s5, (3 + (n + 4))%nat. split; [|split; [exact P5|]].
+  assert (Hcount : steps_method ms (Datatypes.S f) id = (3 + (n + 4))%nat).
+  { cbn [steps_method]. rewrite Hid.
+    assert (Ws1 : wsum sc 0 = (2 * List.length (m_callees m) + fold_right (fun cal a => (steps_method ms f cal + a)%nat) O (m_callees m))%nat).
+    { rewrite wsum_zero_all. unfold sc. rewrite sum_sites. rewrite (map_snd_combine idx (m_callees m) Hlenic).
+      rewrite combine_length, Hlenic, Nat.min_id. reflexivity. }
+    assert (Ws2 : wsum (map (fun x : nat * nat => (fst x, 1%nat)) sc) 0 = List.length (m_callees m)).
+    { rewrite wsum_zero_all. unfold sc. rewrite map_map. rewrite sum_ones.
+      rewrite combine_length, Hlenic, Nat.min_id. reflexivity. }
+    rewrite Ws1, Ws2 in Hn. unfold zlen in Hlen. lia. }
+  rewrite Hcount.
+  exists s5. split; [|split; [exact P5|]].
   { rewrite (run_app v L 3 (n + 4) s s2 Run1). rewrite (run_app v L n 4 s2 s4 R4). rewrite Run3. reflexivity. }
   split.
   { intros r Hr0 Hw. destruct (Z.eq_dec r 1) as [->|N1']; [exact Ra5|].
@@ -420,7 +516,7 @@ End CallCase.
 
 (* ---- every method, by induction on the call depth ---- *)
 Theorem method_contract_all : forall f id m,
-  nth_error ms id = Some m -> (Z.to_nat (m_depth m) < f)%nat -> contract (need_method c ms f id) m.
+  nth_error ms id = Some m -> (Z.to_nat (m_depth m) < f)%nat -> contract (need_method c ms f id) (steps_method ms f id) m.
 Proof.
   induction f as [|f IH]; intros id m Hid Hd; [lia|].
   assert (Hm : In m ms) by (eapply nth_error_In; exact Hid).
@@ -432,8 +528,8 @@ Proof.
     { pose proof (iw_done c img img_wf) as Dn. rewrite Forall_forall in Dn. specialize (Dn m Hm).
       unfold done in Dn. rewrite Hd0 in Dn. exact Dn. }
     assert (Hleaf : m_is_leaf m = true) by (unfold m_is_leaf; rewrite Hc0; reflexivity).
-    cbn [need_method]. rewrite Hid, Hcal, (frame_leaf m Hleaf). cbn [fold_right].
-    replace (24 + 0) with 24 by lia. apply leaf_case; assumption.
+    cbn [need_method steps_method]. rewrite Hid, Hcal, (frame_leaf m Hleaf). cbn [fold_right].
+    replace (24 + 0) with 24 by lia. rewrite Nat.add_0_r. apply leaf_case; assumption.
   - (* makes calls *)
     assert (Hnl : m_is_leaf m = false) by (unfold m_is_leaf; apply Z.eqb_neq; exact Hc0).
     apply (call_case f id m Hid Hnl).
@@ -457,7 +553,7 @@ Qed.
 (* THE THEOREM: every method of the image satisfies its contract, with the stack
    bound computed from the call DAG *)
 Theorem every_method_returns : forall id m,
-  nth_error ms id = Some m -> contract (need_method c ms (max_depth ms) id) m.
+  nth_error ms id = Some m -> contract (need_method c ms (max_depth ms) id) (steps_method ms (max_depth ms) id) m.
 Proof.
   intros id m Hid. apply method_contract_all; [exact Hid|].
   assert (Hm : In m ms) by (eapply nth_error_In; exact Hid).
